@@ -192,4 +192,26 @@ def run(tier):
 
 
 def replay(path):
-    return gen_replay(path)
+    """regenerates the recorded tree and repeats the namespace probes (recorded first import, plus `eolib`) in fresh interpreters"""
+    import json
+    r = json.load(open(path))
+    inp = r.get('input')
+    if not isinstance(inp, dict) or 'xml' not in inp:
+        return replay_broken(r, 'C20')
+    S = Scratch()
+    runner = GenRunner(S, workers=1)
+    tree = xml_to_tree(inp['xml'])
+    firsts = list(dict.fromkeys([inp.get('first_import', 'eolib'), 'eolib', 'eolib.protocol.net.client']))
+    res = runner.run([dict(id=0, files=inp['xml'], jobs=[dict(op='namespace', declared=declared(tree), firsts=firsts, hashseed=0)])])[0]
+    probs = []
+    if not res.get('accepted'):
+        probs.append(f"the generator rejects the tree: {res.get('error')}")
+    if res.get('import_error'):
+        probs.append(f"the package cannot be imported: {res['import_error']}")
+    for out in res.get('results', []):
+        for pr in out.get('probes', []):
+            probs += [f"first import {pr['first']}: {e}" for e in pr['errors']]
+            probs += [f"first import {pr['first']}: module path {m['path']} {m.get('resolves_to', m.get('why'))}" for m in pr['path_mismatches']]
+            probs += [f"first import {pr['first']}: {m['name']} of {m['defined_in']} is not that object in {m.get('looked_up_in')}: {m.get('got', m.get('why'))}" for m in pr['name_mismatches']]
+    print("replay:", probs[0][:400] if probs else "property holds on this input")
+    return 1 if probs else 0
